@@ -56,15 +56,19 @@ func hasSync(sent []*pb.SubscribeResponse) bool {
 // runSubscribe plays one client session. It returns the outcome class and,
 // if something panicked, the recovered panic with the entry point and the
 // message that was being processed.
-func runSubscribe(r *vlib.Run, rng *rand.Rand, reqs []*pb.SubscribeRequest, feed []*pb.Notification) (out string, pi *panicInfo, entry string, culprit proto.Message) {
+func runSubscribe(r *vlib.Run, rng *rand.Rand, reqs []*pb.SubscribeRequest, feed []*pb.Notification) (out string, pi *panicInfo, entry string, culprit proto.Message, class string) {
 	state := rng.Intn(3)
-	c := cache.New(knownTargets)
-	if state >= 1 {
-		populate(c, "dev1", baseTS)
+	mkCache := func() *cache.Cache {
+		c := cache.New(knownTargets)
+		if state >= 1 {
+			populate(c, "dev1", baseTS)
+		}
+		if state >= 2 {
+			populate(c, "dev2", baseTS)
+		}
+		return c
 	}
-	if state >= 2 {
-		populate(c, "dev2", baseTS)
-	}
+	c := mkCache()
 	var opts []subscribe.Option
 	if rng.Intn(2) == 0 {
 		opts = append(opts, subscribe.WithStats())
@@ -92,13 +96,13 @@ func runSubscribe(r *vlib.Run, rng *rand.Rand, reqs []*pb.SubscribeRequest, feed
 		resCh <- subResult{err, p}
 		close(gdone)
 	}()
-	finished := func() (string, *panicInfo, string, proto.Message) {
+	finished := func() (string, *panicInfo, string, proto.Message, string) {
 		res := <-resCh
 		if res.pi != nil {
-			return "panic", res.pi, "subscribe", reqs[0]
+			return "panic", res.pi, "subscribe", reqs[0], ""
 		}
 		r.Count("subscribe_responses_sent_"+bucket(st.NSent()), 1)
-		return errClass(res.err), nil, "", nil
+		return errClass(res.err), nil, "", nil, ""
 	}
 	isDone := func() bool {
 		select {
@@ -128,25 +132,49 @@ func runSubscribe(r *vlib.Run, rng *rand.Rand, reqs []*pb.SubscribeRequest, feed
 	}
 	if !synced {
 		r.Inconclusive("subscribe: neither returned nor synced within the watchdog")
-		return "inconclusive", nil, "", nil
+		return "inconclusive", nil, "", nil, ""
 	}
 	r.Count("subscribe_sessions_synced", 1)
 
 	// Phase 2: the session is live. Updates flow through the cache into the
 	// subscription (STREAM), poll triggers are consumed (POLL).
-	for _, n := range feed {
+	view := &cacheEnv{kind: "subscribe-session", c: c, targets: knownTargets} // for reading the state only
+	for i, n := range feed {
+		view.snapshot()
+		cst := view.stateFor(n)
+		before := proto.Clone(n).(*pb.Notification)
 		if p := guard(func() { c.GnmiUpdate(n) }); p != nil {
 			st.Cancel()
-			return "panic", p, "cache-ingest", n
+			// The cache as it was before this message, without the subscribers.
+			exact := stateBuilder{"the re-created", func() *cacheEnv {
+				var env *cacheEnv
+				if guard(func() {
+					env = &cacheEnv{kind: "subscribe-session", c: mkCache(), targets: knownTargets}
+					for _, m := range feed[:i] {
+						env.c.GnmiUpdate(proto.Clone(m).(*pb.Notification))
+					}
+				}) != nil {
+					return nil
+				}
+				return env
+			}}
+			cl, _ := classifyIngestCrash(before, cst, p, []stateBuilder{exact, freshBuilder("empty")})
+			return "panic", p, "cache-ingest", before, cl
 		}
 	}
+	view.snapshot()
+	confused := view.confused()
 	if p := guard(func() {
 		c.UpdateMetadata()
 		c.Remove("dev2")
 		c.Remove("dev1")
 	}); p != nil {
 		st.Cancel()
-		return "panic", p, "cache-refresh", nil
+		cl := fallbackClass(p.Kind, nil)
+		if confused {
+			cl = "meta-leaf-type-confusion"
+		}
+		return "panic", p, "cache-refresh", nil, cl
 	}
 	st.CloseSend()
 	sl := reqs[0].GetSubscribe()
@@ -188,7 +216,7 @@ func runSubscribe(r *vlib.Run, rng *rand.Rand, reqs []*pb.SubscribeRequest, feed
 		return finished()
 	case <-time.After(watchdog):
 		r.Inconclusive("subscribe: handler did not return after cancellation within the watchdog")
-		return "inconclusive", nil, "", nil
+		return "inconclusive", nil, "", nil, ""
 	}
 }
 
@@ -224,7 +252,7 @@ func judgeSubscribe(r *vlib.Run, mode string, trial int, rng *rand.Rand, reqs []
 		feedTexts = append(feedTexts, ptext(n))
 	}
 	r.SaveCurrent(map[string]interface{}{"mode": mode, "trial": trial, "entry_point": "subscribe", "requests": texts, "cache_feed": feedTexts})
-	out, pi, entry, culprit := runSubscribe(r, rand.New(rand.NewSource(optSeed)), reqs, feed)
+	out, pi, entry, culprit, class := runSubscribe(r, rand.New(rand.NewSource(optSeed)), reqs, feed)
 	r.Eval(1)
 	sl := reqs[0].GetSubscribe()
 	if _, known := pb.SubscriptionList_Mode_name[int32(sl.GetMode())]; known {
@@ -234,13 +262,10 @@ func judgeSubscribe(r *vlib.Run, mode string, trial int, rng *rand.Rand, reqs []
 	}
 	if pi != nil {
 		r.Count("subscribe_panics", 1)
-		class := fallbackClass(pi.Kind, culprit)
-		if n, ok := culprit.(*pb.Notification); ok && entry == "cache-ingest" {
-			class, _ = cacheClass(pi, n, nil)
-		} else if entry == "subscribe" {
+		if entry == "subscribe" {
 			small := shrink(reqs[0], 200, func(m proto.Message) bool {
 				rs := append([]*pb.SubscribeRequest{proto.Clone(m).(*pb.SubscribeRequest)}, reqs[1:]...)
-				_, p2, e2, _ := runSubscribe(r, rand.New(rand.NewSource(optSeed)), rs, feed)
+				_, p2, e2, _, _ := runSubscribe(r, rand.New(rand.NewSource(optSeed)), rs, feed)
 				return p2 != nil && e2 == entry && p2.Kind == pi.Kind
 			})
 			class = shrunkClass(pi.Kind, small)
